@@ -72,7 +72,8 @@ void harness(void) {
 	tp_shutdown(tp);
 	/* the scheduler lets some of the workers run now: each receives its stop message and runs the real
 	 * tp_thread_proc to its end (stub epoll_wait: nothing to dispatch, state := STOPING) */
-	for (i = 0; i < VF_THR_MAX; i ++) {
+	VF_ASSERT(vf_thr_cnt <= VF_TMAX, "threads_create: never more threads than workers");
+	for (i = 0; i < VF_TMAX; i ++) {	/* VF_TMAX copies of the thread body at most (memory) */
 		if (i < (size_t)vf_thr_cnt && ((fin_mask >> i) & 1)) {
 			tpt_p t = (tpt_p)vf_thr[i].arg;
 			vf_ew_calls = 0; vf_ew_ret = 0; vf_ew_state_to_stop = &t->state; vf_ew_stop_value = TP_THREAD_STATE_STOPING;
